@@ -15,7 +15,8 @@ from .world import World, simple_pool, REPO
 
 STARTUPS = ['pool_md5', 'pool_md5_authquery', 'pool_trust', 'unknown_db', 'unknown_user', 'admin_ok_user', 'admin_wrong_user', 'no_user']
 RESPONSES = ['correct', 'wrong_password', 'replayed', 'other_users_password', 'truncated', 'empty', 'wrong_message_type', 'none',
-             'zero_length_body', 'constant_md5', 'correct_prefix', 'correct_without_nul', 'correct_with_suffix']
+             'zero_length_body', 'constant_md5', 'correct_prefix', 'correct_without_nul', 'correct_with_suffix', 'previous_password']
+PREVIOUS = {'secret1': 'secret0'}     # password of u_md5 before the RELOAD of rotated worlds
 CREDS = {
     'pool_md5': ('db', 'u_md5', 'secret1'),
     'pool_md5_authquery': ('dbq', 'u_aq', 'aqsecret'),
@@ -107,6 +108,8 @@ def attempt(w, idx, startup, response, tls, rng):
                 rec['response'] = 'wrong_password'
             else:
                 out = W.Password(md5_password(u, pw, old_salt))
+        elif response == 'previous_password':
+            out = W.Password(md5_password(u, PREVIOUS.get(pw, 'secret0'), salt))
         elif response == 'other_users_password':
             other = 'adminpw' if pw != 'adminpw' else 'secret1'
             out = W.Password(md5_password(u, other, salt))
@@ -188,7 +191,24 @@ def run_batch(item):
         dbq = simple_pool([['127.0.0.1', b2.port, 'primary']], pool_size=2, user={'username': 'u_aq', 'password': None, 'auth_type': None})
         dbq.update({'auth_query': "SELECT usename, passwd FROM pg_shadow WHERE usename='$1'", 'auth_query_user': 'aq_user',
                     'auth_query_password': 'aq_pw'})
-        w.start(general=general, pools={'db': db, 'dbq': dbq})
+        if item.get('rotated'):
+            # start with the previous password of u_md5, then change only that password and RELOAD
+            from .world import render_config, default_general
+            db['users']['0']['password'] = 'secret0'
+            w.start(general=general, pools={'db': db, 'dbq': dbq})
+            db['users']['0']['password'] = 'secret1'
+            g = default_general(w.port)
+            g.update(general)
+            w.write_config(render_config(g, {'db': db, 'dbq': dbq}))
+            from .client import Client
+            a = Client(w.port, db='pgcat', user='admin', password='adminpw', name='ADMIN', timeout=5.0)
+            a.send(W.Q('RELOAD'))
+            rr = a.read_reply(5.0)
+            a.close()
+            out['reload'] = rr.brief()
+            time.sleep(0.1)
+        else:
+            w.start(general=general, pools={'db': db, 'dbq': dbq})
         for att in item['attempts']:
             rec = attempt(w, att['id'], att['startup'], att['response'], tls, rng)
             out['recs'].append(rec)
@@ -210,7 +230,7 @@ def check_c09(prop, tier, seed):
     v.add_mc('mc:design', res)
     if res.rc != 0:
         v.tool_error('Auth design rc=%d %s' % (res.rc, res.errors()[:2]))
-    for d in ('ok_before_check', 'admin_via_pool'):
+    for d in ('ok_before_check', 'admin_via_pool', 'stale_secret'):
         r2 = tlc.run_tlc('Auth', 'MC_Auth_dev_%s.cfg' % d, workers=2)
         v.add_mc('mc:dev:' + d, r2)
         if not r2.invariant_violated:
@@ -227,8 +247,8 @@ def check_c09(prop, tier, seed):
                     atts.append({'id': idx, 'startup': st, 'response': rs})
             rng.shuffle(atts)
             half = len(atts) // 2
-            batches.append({'attempts': atts[:half], 'tls': tls, 'seed': seed * 7 + idx})
-            batches.append({'attempts': atts[half:], 'tls': tls, 'seed': seed * 7 + idx + 1})
+            batches.append({'attempts': atts[:half], 'tls': tls, 'seed': seed * 7 + idx, 'rotated': rep % 2 == 0})
+            batches.append({'attempts': atts[half:], 'tls': tls, 'seed': seed * 7 + idx + 1, 'rotated': rep % 2 == 1})
     results = core.run_parallel(run_batch, batches, workers=12)
     recs = []
     refused_valid = 0
@@ -273,7 +293,7 @@ def check_c09(prop, tier, seed):
         v.tool_error('negative control: no wrong-password attempt')
     for r in recs[:3]:
         v.add_sample(r)
-    v.cov['rule'] = ('attempts = every (startup class x response class) of Auth.tla (8 x 8) over plain and TLS, %d repetitions with '
+    v.cov['rule'] = ('attempts = every (startup class x response class) of Auth.tla (8 x 14) over plain and TLS, half of the worlds after a RELOAD that changed only the password of the md5 user, %d repetitions with '
                      'fresh salts / seeded wrong passwords; each attempt afterwards sends a tagged query to see whether anything '
                      'reaches a mock backend; distinct = (startup, response, transport)' % reps)
     v.cov['exhaustive'] = True
